@@ -221,3 +221,62 @@ func (c *Check) EdgeEffect(fn *ssa.Function, lp *Loop, cond VM, outcome bool, pr
 	c.OK("edgeeffect", key, desc)
 	return true
 }
+
+// LoopGateForAppend: in loop lp, every append to the loop-carried slice `name` is
+// reached only through the pass edge of g (from the body entry).
+func (c *Check) LoopGateForAppend(fn *ssa.Function, lp *Loop, g Gate, name, what string) bool {
+	if fn == nil || lp == nil {
+		return false
+	}
+	var targets []ssa.Instruction
+	for bi := range lp.Blocks {
+		for _, ins := range fn.Blocks[bi].Instrs {
+			if cl, ok := ins.(*ssa.Call); ok && calleeName(&cl.Call) == "builtin:append" && PhiNamed(name)(cl.Call.Args[0]) {
+				targets = append(targets, ins)
+			}
+		}
+	}
+	return c.mustPassFrom(fn, lp.Body, g, targets, what+" (append to "+name+")")
+}
+
+// LoopGateForMapUpdate: in loop lp, every map update is reached only through the pass edge of g.
+func (c *Check) LoopGateForMapUpdate(fn *ssa.Function, lp *Loop, g Gate, what string) bool {
+	if fn == nil || lp == nil {
+		return false
+	}
+	var targets []ssa.Instruction
+	for bi := range lp.Blocks {
+		for _, ins := range fn.Blocks[bi].Instrs {
+			if _, ok := ins.(*ssa.MapUpdate); ok {
+				targets = append(targets, ins)
+			}
+		}
+	}
+	return c.mustPassFrom(fn, lp.Body, g, targets, what)
+}
+
+// Accumulator2: the loop-carried slice `name` changes only by the given append, and
+// only on the `outcome` edge of cond.
+func (c *Check) Accumulator2(fn *ssa.Function, lp *Loop, name string, step VM, cond VM) bool {
+	if fn == nil || lp == nil {
+		return false
+	}
+	key := shortName(fn) + "|loop:" + lp.Name + "|acc2:" + name
+	desc := "in loop " + lp.Name + " the slice " + name + " grows only by the stated append under the stated condition"
+	n := 0
+	ok := true
+	for bi := range lp.Blocks {
+		for _, ins := range fn.Blocks[bi].Instrs {
+			cl, isCall := ins.(*ssa.Call)
+			if !isCall || calleeName(&cl.Call) != "builtin:append" || !PhiNamed(name)(cl.Call.Args[0]) {
+				continue
+			}
+			n++
+			if !step(cl) || !dominatedByBranch(fn, cl.Block(), cond, true) {
+				ok = false
+			}
+		}
+	}
+	c.Sites += len(lp.Blocks)
+	return c.Require(ok && n == 1, "accumulator", key, desc, "append sites: "+itoa(n))
+}
